@@ -1,6 +1,456 @@
-//! C20 — placeholder until the check is written
+//! C20 — single-stepping and breakpoints are transparent and the prompt always terminates.
+//!
+//! Explicit exploration of prompt scripts on the real binary: for each program and stepping mode the
+//! default script answers every read with `n`; every script with at most d deviations from it
+//! (an alternative advancing answer, a non-advancing answer inserted before the `n`, a terminating
+//! answer, or the end of input at that position) is run, and stdout is matched event by event against
+//! the reference interpreter (one prompt per executed instruction, naming its line; prints answered
+//! without advancing; quit / end of input terminate). A relational oracle compares the all-`n` run
+//! with the plain run of the same program.
+
 use super::common::*;
-pub fn run(_tier: &Tier) -> i32 {
-    eprintln!("C20: not built yet");
-    2
+use crate::alu::*;
+use crate::ast::b::*;
+use crate::ast::*;
+use crate::cli::*;
+use crate::findings::*;
+use crate::refprog as rp;
+use rayon::prelude::*;
+use serde_json::json;
+use std::collections::HashMap;
+use std::sync::atomic::{AtomicU64, Ordering};
+
+#[derive(Clone)]
+struct Prog {
+    name: &'static str,
+    prog: Program,
+    mb: HashMap<String, Vec<Item>>,
+    has_rep: bool,
+}
+
+fn finals(code: &mut Vec<Item>) {
+    code.push(print(PrintKind::Reg));
+    code.push(print(PrintKind::Flags));
+    code.push(print(PrintKind::MemRange(0, 31)));
+}
+
+fn data() -> Vec<DataDef> {
+    vec![DataDef::Str(Some("msg".into()), W::B, "stepping".into()), dw(Some("wv"), 0x1234), db(Some("bv"), 7)]
+}
+
+fn programs(thorough: bool) -> Vec<Prog> {
+    let mut v = Vec::new();
+    let mut add = |name: &'static str, code: Vec<Item>, mb: HashMap<String, Vec<Item>>, has_rep: bool| {
+        v.push(Prog { name, prog: Program { data: data(), code }, mb, has_rep });
+    };
+    let none = || HashMap::new();
+    // 1 straight line, short instructions at line ends
+    {
+        let mut c = vec![label("start"), mov(r16("ax"), imm(5)), z(ZeroOp::Stc), bin(BinOp::Adc, r16("ax"), imm(3)), z(ZeroOp::Cmc)];
+        finals(&mut c);
+        add("straight", c, none(), false);
+    }
+    // 2 loop
+    {
+        let mut c = vec![label("start"), mov(r16("cx"), imm(3)), label("again"), un(UnOp::Inc, r16("ax")), jmp("loop", "again")];
+        finals(&mut c);
+        add("loop", c, none(), false);
+    }
+    // 3 call / implied ret
+    {
+        let mut c = vec![proc("f", vec![un(UnOp::Inc, r16("bx"))]), label("start"), call("f"), call("f")];
+        finals(&mut c);
+        add("call", c, none(), false);
+    }
+    // 4 rep movs
+    {
+        let mut c = vec![label("start"), mov(r16("si"), imm(0)), mov(r16("di"), imm(16)), mov(r16("cx"), imm(3)), strop(Some(Rep::Rep), StrOp::Movs, W::B), mov(r16("dx"), imm(9))];
+        finals(&mut c);
+        add("rep", c, none(), true);
+    }
+    // 5 prints only
+    {
+        let mut c = vec![label("start"), print(PrintKind::Flags), print(PrintKind::Reg), print(PrintKind::MemLen(0, 7)), print(PrintKind::MemDs(3))];
+        finals(&mut c);
+        add("prints", c, none(), false);
+    }
+    // 6 character output
+    {
+        let mut c = vec![label("start"), mov(r8("ah"), imm(2)), mov(r8("dl"), imm(65)), int(0x21), mov(r16("cx"), imm(3)), mov(r16("ax"), imm(0x0A2A)), int(0x10)];
+        finals(&mut c);
+        add("output", c, none(), false);
+    }
+    // 7 conditional jump forward
+    {
+        let mut c = vec![
+            label("start"),
+            bin(BinOp::Cmp, r16("ax"), imm(0)),
+            jmp("je", "skip"),
+            mov(r16("bx"), imm(0x0BAD)),
+            label("skip"),
+            mov(r16("dx"), imm(1)),
+        ];
+        finals(&mut c);
+        add("jump", c, none(), false);
+    }
+    // 8 macro use (every emitted instruction is attributed to the use line)
+    {
+        let mut mb = HashMap::new();
+        mb.insert("twice".to_string(), vec![un(UnOp::Inc, r16("ax")), un(UnOp::Inc, r16("ax"))]);
+        let mut c = vec![Item::MacroDef("twice".into(), vec!["a".into()], "inc a inc a".into()), label("start"), Item::MacroUse("twice".into(), vec!["ax".into()]), mov(r16("bx"), r16("ax"))];
+        finals(&mut c);
+        add("macro", c, mb, false);
+    }
+    // 9 stack and flags without TF
+    {
+        let mut c = vec![label("start"), mov(r16("sp"), imm(0x0200)), z(ZeroOp::Stc), z(ZeroOp::Pushf), push(r16("sp")), pop(r16("bx")), z(ZeroOp::Clc), z(ZeroOp::Popf)];
+        finals(&mut c);
+        add("stack", c, none(), false);
+    }
+    // 10 explicit hlt in the middle: nothing after it is prompted or executed
+    {
+        let c = vec![label("start"), mov(r16("ax"), imm(1)), print(PrintKind::Reg), z(ZeroOp::Hlt), mov(r16("ax"), imm(2)), print(PrintKind::Reg)];
+        add("hlt", c, none(), false);
+    }
+    if thorough {
+        // 11 input service sharing stdin with the prompt
+        {
+            let mut c = vec![label("start"), mov(r8("ah"), imm(1)), int(0x21), mov(r8("dl"), r8("al")), mov(r8("ah"), imm(2)), int(0x21)];
+            finals(&mut c);
+            add("input", c, none(), false);
+        }
+        // 12 nested calls with explicit ret, repe cmps
+        {
+            let mut c = vec![
+                proc("inner", vec![un(UnOp::Inc, r16("dx")), z(ZeroOp::Ret), un(UnOp::Dec, r16("dx"))]),
+                proc("outer", vec![call("inner"), call("inner")]),
+                label("start"),
+                call("outer"),
+                mov(r16("cx"), imm(4)),
+                mov(r16("si"), imm(0)),
+                mov(r16("di"), imm(0)),
+                strop(Some(Rep::Repe), StrOp::Cmps, W::B),
+            ];
+            finals(&mut c);
+            add("nested", c, none(), true);
+        }
+    }
+    v
+}
+
+#[derive(Clone, Copy, Debug, PartialEq, Eq)]
+enum Mode {
+    Interpreted,
+    /// trap flag set by push/popf before the k-th instruction after `start`, cleared before the finals
+    Trap(usize),
+    /// INT 3 inserted before the k-th item after `start`
+    Int3(usize),
+    /// INT 3 before every instruction
+    Int3All,
+}
+
+/// index in `code` of the label start
+fn start_pos(code: &[Item]) -> usize {
+    code.iter().position(|i| matches!(i, Item::Label(l) if l == "start")).unwrap()
+}
+
+fn tf_set(word: u16) -> Vec<Item> {
+    vec![mov(r16("ax"), imm(word as i32)), push(r16("ax")), z(ZeroOp::Popf)]
+}
+
+fn with_mode(p: &Prog, m: Mode) -> Option<Program> {
+    let mut code = p.prog.code.clone();
+    let s = start_pos(&code);
+    // top-level instruction positions after start (labels stay where they are)
+    let n_after = code.len() - s - 1;
+    match m {
+        Mode::Interpreted => {}
+        Mode::Trap(k) => {
+            if k >= n_after {
+                return None;
+            }
+            // the program's own AX must not be disturbed: save/restore is itself part of the program,
+            // so the plain twin (same program without TF) differs only in the flag word loaded
+            let fin = code.len() - 3;
+            let at = s + 1 + k;
+            if at > fin {
+                return None;
+            }
+            let mut c2: Vec<Item> = code[..at].to_vec();
+            c2.push(push(r16("ax")));
+            c2.extend(tf_set(0x0100));
+            c2.push(pop(r16("ax")));
+            c2.extend(code[at..fin].iter().cloned());
+            c2.push(push(r16("ax")));
+            c2.extend(tf_set(0x0000));
+            c2.push(pop(r16("ax")));
+            c2.extend(code[fin..].iter().cloned());
+            code = c2;
+        }
+        Mode::Int3(k) => {
+            if k > n_after {
+                return None;
+            }
+            code.insert(s + 1 + k, int(3));
+        }
+        Mode::Int3All => {
+            let mut c2: Vec<Item> = code[..=s].to_vec();
+            for it in code[s + 1..].iter() {
+                if matches!(it, Item::Ins(_) | Item::MacroUse(..)) {
+                    c2.push(int(3));
+                }
+                c2.push(it.clone());
+            }
+            code = c2;
+        }
+    }
+    Some(Program { data: p.prog.data.clone(), code })
+}
+
+/// the plain twin: the same text with stepping removed (INT 3 lines blanked so that line numbers
+/// stay; TF word 0x0100 replaced by 0)
+fn plain_twin_src(src: &str, m: Mode) -> String {
+    match m {
+        Mode::Interpreted => src.to_string(),
+        Mode::Trap(_) => src.replace("mov ax, 256\n", "mov ax, 0\n"),
+        Mode::Int3(_) | Mode::Int3All => src.replace("int 3\n", "\n"),
+    }
+}
+
+/// remove prompt artefacts from a stepped run's stdout (they may follow program output on the same line)
+fn strip_artefacts(out: &str) -> String {
+    let no_prompt = out.replace(">>> ", "");
+    let re = regex::Regex::new(r"(About to execute line \d+ : [^\n]*\n|Trap flag is set\n|Int 3 at line \d+\n)").unwrap();
+    re.replace_all(&no_prompt, "").to_string()
+}
+
+fn clip(s: &str, n: usize) -> String {
+    if s.len() <= n {
+        s.to_string()
+    } else {
+        let mut e = n;
+        while !s.is_char_boundary(e) {
+            e -= 1;
+        }
+        format!("{}… ({} bytes in all)", &s[..e], s.len())
+    }
+}
+
+const ADVANCING: [&str; 3] = ["next", "NEXT", "  n  "];
+const NONADV: [&str; 9] = ["print reg", "print flags", "print mem 0:3", "PRINT MEM 0 -> 0x1f", "", "foo", "nn", "print", "next please"];
+const TERMINATING: [&str; 4] = ["q", "quit", "QUIT", " q "];
+
+#[derive(Clone, Debug)]
+struct Script {
+    lines: Vec<String>,
+    deviations: usize,
+    what: String,
+}
+
+/// all scripts with exactly one more deviation applied at or after position `from`
+fn deviate(base: &Script, from: usize, reads: usize, reduced: bool) -> Vec<(Script, usize, bool)> {
+    // returns (script, next position from which a further deviation may be applied, terminated)
+    let mut out = Vec::new();
+    let adv: &[&str] = if reduced { &ADVANCING[..1] } else { &ADVANCING };
+    let non: &[&str] = if reduced { &NONADV[..1] } else { &NONADV };
+    let non2: Vec<&str> = if reduced { vec![non[0], "", "foo"] } else { non.to_vec() };
+    let term: &[&str] = if reduced { &TERMINATING[..1] } else { &TERMINATING };
+    for p in from..base.lines.len().min(reads + base.deviations) {
+        for a in adv {
+            let mut l = base.lines.clone();
+            l[p] = a.to_string();
+            out.push((Script { lines: l, deviations: base.deviations + 1, what: format!("{}; read {} answered {:?}", base.what, p, a) }, p + 1, false));
+        }
+        for a in non2.iter() {
+            let mut l = base.lines.clone();
+            l.insert(p, a.to_string());
+            // a further deviation may hit the same prompt again (position p+1 is the displaced `n`)
+            out.push((Script { lines: l, deviations: base.deviations + 1, what: format!("{}; {:?} inserted before read {}", base.what, a, p) }, p + 1, false));
+        }
+        for a in term {
+            let mut l = base.lines[..p].to_vec();
+            l.push(a.to_string());
+            // lines after a quit must never be read: keep some, they must have no effect
+            l.push("print reg".into());
+            out.push((Script { lines: l, deviations: base.deviations + 1, what: format!("{}; read {} answered {:?}", base.what, p, a) }, usize::MAX, true));
+        }
+        // end of input at this read
+        let l = base.lines[..p].to_vec();
+        out.push((Script { lines: l, deviations: base.deviations + 1, what: format!("{}; end of input at read {}", base.what, p) }, usize::MAX, true));
+    }
+    out
+}
+
+/// all scripts with at most `d` deviations; None if there are more than `budget`
+fn scripts(reads: usize, d: usize, reduced_second: bool, budget: usize) -> Option<Vec<Script>> {
+    let base = Script { lines: vec!["n".to_string(); reads], deviations: 0, what: "all n".into() };
+    let mut all = vec![base.clone()];
+    let mut frontier: Vec<(Script, usize, bool)> = vec![(base, 0, false)];
+    for level in 0..d {
+        let mut next = Vec::new();
+        for (s, from, term) in frontier.iter() {
+            if *term {
+                continue;
+            }
+            let reduced = level >= 1 && reduced_second;
+            for x in deviate(s, *from, reads, reduced) {
+                next.push(x);
+            }
+            if all.len() + next.len() > budget {
+                return None;
+            }
+        }
+        for (s, _, _) in next.iter() {
+            all.push(s.clone());
+        }
+        frontier = next;
+    }
+    Some(all)
+}
+
+pub fn run(tier: &Tier) -> i32 {
+    let rep_o = Reporter::new("C20", tier.name());
+    let c_o = Counters::default();
+    let rep = &rep_o;
+    let c = &c_o;
+    ensure_bin();
+    let progs = programs(tier.thorough);
+    // (program, mode) pairs
+    let mut pm: Vec<(Prog, Mode, Program)> = Vec::new();
+    for p in progs.iter() {
+        let mut modes = vec![Mode::Interpreted, Mode::Int3All];
+        let s = start_pos(&p.prog.code);
+        let n_after = p.prog.code.len() - s - 1;
+        for k in 0..=n_after {
+            if tier.thorough || k % 2 == 0 {
+                modes.push(Mode::Int3(k));
+            }
+        }
+        for k in 0..n_after {
+            if tier.thorough || k < 2 {
+                modes.push(Mode::Trap(k));
+            }
+        }
+        for m in modes {
+            if let Some(q) = with_mode(p, m) {
+                pm.push((p.clone(), m, q));
+            }
+        }
+    }
+    // work list: (pm index, script)
+    let d = if tier.thorough { 3 } else { 2 };
+    let mut work: Vec<(usize, Script)> = Vec::new();
+    let mut reads_of: Vec<usize> = Vec::new();
+    let mut depth_hist = [0usize; 4];
+    // which of the two admissible ways of single-stepping a REP-prefixed instruction does the binary use?
+    // (decided once, on a generous all-n script; every later run must be consistent with it)
+    let mut rep_iter = false;
+    if let Some(p) = progs.iter().find(|p| p.has_rep) {
+        let src = render(&p.prog);
+        let lines = vec!["n".to_string(); 200];
+        let raw = "n\n".repeat(200);
+        let (_, _, a) = cli_conformance_raw(&src, &p.prog, &p.mb, &lines, &raw, true, 5000, false, false);
+        let (_, _, b) = cli_conformance_raw(&src, &p.prog, &p.mb, &lines, &raw, true, 5000, false, true);
+        rep_iter = a.is_some() && b.is_none();
+    }
+    for (k, (p, m, q)) in pm.iter().enumerate() {
+        let flat = rp::flatten(q, &p.mb);
+        let rr = rp::run(&flat, &rp::RunOpts { stdin: vec!["n".to_string(); 4000], interpreted: *m == Mode::Interpreted, horizon: 5000, dos_0a: false, rep_prompt_per_iteration: rep_iter });
+        if rr.stop == rp::Stop::Horizon || rr.stop == rp::Stop::PromptEof {
+            eprintln!("MACHINERY: C20 program {} does not terminate in the reference", p.name);
+            return 2;
+        }
+        let reads = rr.stdin_used;
+        reads_of.push(reads);
+        // the deepest deviation bound whose complete script set fits the per-pair budget (never a sample:
+        // a bound is either explored completely or not claimed)
+        let budget = if tier.thorough { 12_000 } else if matches!(m, Mode::Interpreted | Mode::Int3All) { 1500 } else { 300 };
+        let mut dd = d;
+        let set = loop {
+            match scripts(reads, dd, true, budget) {
+                Some(v) => break v,
+                None => dd -= 1,
+            }
+        };
+        depth_hist[dd.min(3)] += 1;
+        for s in set {
+            work.push((k, s));
+        }
+    }
+    let prompts_checked = AtomicU64::new(0);
+    let eof_runs = AtomicU64::new(0);
+    let quit_runs = AtomicU64::new(0);
+    let rep_iter_mode = AtomicU64::new(0);
+    let relational = AtomicU64::new(0);
+    work.par_iter().for_each(|(k, sc)| {
+        let (p, m, q) = &pm[*k];
+        let src = render(q);
+        let interpreted = *m == Mode::Interpreted;
+        let mut raw = String::new();
+        for l in sc.lines.iter() {
+            raw.push_str(l);
+            raw.push('\n');
+        }
+        let (rr, out, res) = cli_conformance_raw(&src, q, &p.mb, &sc.lines, &raw, interpreted, 5000, false, rep_iter);
+        if rep_iter && p.has_rep {
+            rep_iter_mode.fetch_add(1, Ordering::Relaxed);
+        }
+        c.add_exec(1);
+        prompts_checked.fetch_add(rr.prompts as u64, Ordering::Relaxed);
+        match rr.stop {
+            rp::Stop::PromptEof => {
+                eof_runs.fetch_add(1, Ordering::Relaxed);
+            }
+            rp::Stop::Quit => {
+                quit_runs.fetch_add(1, Ordering::Relaxed);
+            }
+            _ => {}
+        }
+        c.outcome(&format!("{:?}/{}", rr.stop, if res.is_none() { "conforms" } else { "differs" }));
+        let site = format!("{} / {}", p.name, match m { Mode::Interpreted => "-i", Mode::Trap(_) => "trap flag", Mode::Int3(_) | Mode::Int3All => "int 3" });
+        report_cli(rep, &site, res, &src, &sc.lines, interpreted, &out, json!({"script": sc.what, "mode": format!("{:?}", m)}));
+        // relational oracle on the default script: stepped output minus artefacts == plain output
+        if sc.deviations == 0 {
+            let twin = plain_twin_src(&src, *m);
+            let plain = run_cli(&twin, "", &CliOpts::default());
+            relational.fetch_add(1, Ordering::Relaxed);
+            let a = strip_artefacts(&out.out());
+            // header lines of the twin cite the same line numbers; texts of blanked/changed lines are not printed
+            let b = plain.out();
+            // a program that prints the flags while the trap flag is set shows TF itself: not compared
+            let norm = |s: &str| s.replace("TF : 1", "TF : 0").split_whitespace().collect::<Vec<_>>().join(" ");
+            if norm(&a) != norm(&b) || plain.abnormal().is_some() {
+                rep.report(Viol {
+                    site: site.clone(),
+                    field: "transparency".into(),
+                    vars: vec![],
+                    got_val: None,
+                    expected: format!("same program output and final dump as the plain run: {}", clip(&norm(&b), 1500)),
+                    got: clip(&norm(&a), 1500),
+                    case: json!({"src": src, "stdin": raw, "interpreted": interpreted, "plain_twin_src": twin, "stepped_stdout": clip(&out.out(), 6000), "plain_stdout": clip(&b, 6000)}),
+                    weight: src.len() as u64,
+                });
+            }
+        }
+    });
+    for (k, sc) in work.iter().step_by(work.len() / 10 + 1) {
+        let (p, m, q) = &pm[*k];
+        c.sample(json!({"program": p.name, "mode": format!("{:?}", m), "script": sc.what, "stdin_lines": sc.lines, "source": render(q)}));
+    }
+    c.states.fetch_add(work.len() as u64, Ordering::Relaxed);
+    if eof_runs.load(Ordering::Relaxed) < 100 || quit_runs.load(Ordering::Relaxed) < 100 || prompts_checked.load(Ordering::Relaxed) < 5000 {
+        eprintln!("MACHINERY: C20 explored too little");
+        return 2;
+    }
+    let mut cov = Coverage::default();
+    cov.exhaustive = true;
+    cov.rule = format!("{} terminating programs (straight line with short instructions at line ends, loop, call with implied ret, REP, prints, character output, conditional jump, macro use, stack/flags, hlt in the middle{}) x stepping modes (-i; trap flag set by POPF before the k-th instruction and cleared before the final dump; INT 3 before the k-th item; INT 3 before every instruction). For each (program, mode) the default script answers every read with 'n'; ALL scripts with at most {} deviations are run (alphabet: 3 alternative advancing answers, 9 non-advancing answers incl. print commands, empty line and garbage inserted before the 'n' (possibly repeatedly at the same prompt), 4 terminating answers followed by further lines that must not be read, and the end of input at that read; the second and later deviations use a reduced alphabet; for each (program, mode) the deviation bound is the largest one whose complete script set fits the per-pair budget, see bounds). Each run's stdout is matched event by event against the reference: one prompt per executed instruction naming its line, print commands answered from the reference state without advancing, quit / end of input terminate with exit status 0 within the watchdog and below the output cap. Relational oracle on every default script: output minus prompt artefacts equals the plain run of the same program (INT 3 lines blanked / TF word replaced by 0)", progs.len(), if tier.thorough { ", input service sharing stdin, nested calls with REPE CMPS" } else { "" }, d);
+    cov.bounds = json!({"programs": progs.len(), "program_mode_pairs": pm.len(), "scripts": work.len(), "max_deviations": d, "program_mode_pairs_explored_completely_to_0_1_2_3_deviations": depth_hist, "prompts_checked": prompts_checked.load(Ordering::Relaxed), "runs_ending_in_end_of_input": eof_runs.load(Ordering::Relaxed), "runs_ending_in_quit": quit_runs.load(Ordering::Relaxed), "relational_pairs": relational.load(Ordering::Relaxed), "binary_prompts_before_every_rep_iteration": rep_iter, "runs_of_programs_with_rep": rep_iter_mode.load(Ordering::Relaxed), "reads_per_pair_min_max": [reads_of.iter().min(), reads_of.iter().max()], "tier": tier.name()});
+    cov.assumptions = common_assumptions();
+    cov.assumptions.push("single-stepping a REP-prefixed instruction may show one prompt for the instruction or one prompt before every iteration (the 8086 trap flag traps after every iteration); both are accepted".into());
+    cov.assumptions.push("watchdog 4 s per run (a run takes about 15 ms), output cap 1 MB; a timeout or capped output is the 'spins' verdict".into());
+    cov.cli_runs = CLI_RUNS.load(Ordering::Relaxed);
+    cov.distinct_nontrivial = work.len() as u64;
+    let cov = finish_cov(c, cov);
+    rep.finish(cov)
 }
